@@ -19,6 +19,7 @@ SHARED = {
     "GDFamily": ["C01", "C02", "C07"],
     "DocD": ["C01", "C02", "C07"],
     "DAll": ["C01", "C02", "C07", "C03"],
+    "DocHom": ["C07", "C04", "C19"],
     "FlatSteps": ["C01", "C08", "C15"],
 }
 
